@@ -206,3 +206,67 @@ Example C13_ex_any_read_state :
 Proof.
   split; [intros; apply vfill_coherent, vcoherent_nil | vm_compute; reflexivity].
 Qed.
+
+(* ====================================================================================================
+   (6) A FAILED CALL LEAVES NO LOCK HELD (appended; Proofs/C13Locks.v).  `held_after held t` = the locks one
+   thread holds after its trace t.  `disciplined [] t` already says that t is lock-balanced; spelled out: *)
+From Verif Require Import Proofs.C13Locks.
+
+Theorem C13_disciplined_releases_all : forall t held, disciplined held t = true -> held_after held t = [].
+Proof. exact disciplined_releases_all. Qed.
+Print Assumptions C13_disciplined_releases_all.
+
+(* every call - ANY sequence of primitive uses of the shared cells (the prims_* of Schema/FootprintOps.v stop at
+   the first error exactly where the failing operation stops) - holds no lock when it returns ... *)
+Theorem C13_call_holds_no_lock : forall sh st ps, held_after [] (fst (run_prims sh true st ps)) = [].
+Proof. exact call_holds_no_lock. Qed.
+Print Assumptions C13_call_holds_no_lock.
+
+(* ... also when it ends INSIDE a critical section: a section of ANY guard whose body (reads / writes of cells
+   of that guard) is abandoned after ANY number k of accesses by a panic - json decoding of an unparsable
+   default inside GetDefaults, recovered by the loader and turned into the `invalid schema` error - releases
+   its lock, because the code unlocks with `defer` (guarded_defer): the failed call's trace is disciplined
+   and holds no lock at its end. *)
+Theorem C13_failed_call_holds_no_lock : forall sh st ps g body k, body_ok g body ->
+  disciplined [] (fst (run_prims sh true st ps) ++ guarded_defer g body k) = true /\
+  held_after [] (fst (run_prims sh true st ps) ++ guarded_defer g body k) = [].
+Proof. intros; split; [apply failed_call_disciplined | apply failed_call_holds_no_lock]; assumption. Qed.
+Print Assumptions C13_failed_call_holds_no_lock.
+
+(* per schedule: after ANY interleaving (any number of threads, any length) of complete disciplined traces -
+   failed calls included, by the theorem above - that respects the semantics of the locks, NO lock is held:
+   whatever another goroutine wants to acquire next on whatever instance, it can. *)
+Theorem C13_no_lock_left : forall s,
+  sched_lock_ok [] s = true -> (forall i, disciplined [] (proj i s) = true) ->
+  run_locks [] s = [] /\ forall g, holder g (run_locks [] s) = None.
+Proof. intros s H1 H2; split; [apply no_lock_left | intro g; apply later_acquire_possible]; assumption. Qed.
+Print Assumptions C13_no_lock_left.
+
+(* the discipline with an explicit Unlock after the body instead of `defer` is refuted: the GetDefaults of
+   object 0 whose decode panics keeps the package-level defaults lock, its trace is not disciplined, and the
+   GetDefaults of ANOTHER object by another thread can never start (with defer it can). *)
+Theorem C13_explicit_unlock_refuted :
+  held_after [] (defaults_fail_trace_explicit 0) = [GDefaults] /\
+  disciplined [] (defaults_fail_trace_explicit 0) = false /\
+  sched_lock_ok [] (map (pair 1%N) (defaults_fail_trace_explicit 0) ++ [(2%N, Acq GDefaults)]) = false /\
+  sched_lock_ok [] (map (pair 1%N) (defaults_fail_trace 0) ++
+                    map (pair 2%N) (fst (run_prim (mkShape (fun _ => true) (fun _ => true)) true cs_empty (PDefaults 1)))) = true.
+Proof. exact explicit_unlock_refuted. Qed.
+Print Assumptions C13_explicit_unlock_refuted.
+
+(* ---- non-vacuity: the failing GetDefaults of the model, after a first-use parse, followed by another thread's
+   lookups on another object ---- *)
+Example C13_ex_failed_call :
+  let sh := mkShape (fun _ => true) (fun _ => true) in
+  body_ok GDefaults [Rd (CDefaults 3); Wr (CDefaults 3)] /\
+  fst (run_prims sh true cs_empty [PDefaults 2]) ++ guarded_defer GDefaults [Rd (CDefaults 3); Wr (CDefaults 3)] 1
+  = [Acq GDefaults; Rd (CDefaults 2); Rel GDefaults; Acq GDefaults; Rd (CDefaults 2); Wr (CDefaults 2); Rel GDefaults;
+     Acq GDefaults; Rd (CDefaults 3); Rel GDefaults] /\
+  defaults_fail_trace 3 = [Acq GDefaults; Rd (CDefaults 3); Rel GDefaults; Acq GDefaults; Rd (CDefaults 3); Rel GDefaults] /\
+  let s := map (pair 1%N) (defaults_fail_trace 3) ++ map (pair 2%N) (fst (run_prims sh true cs_empty [PDefaults 4; PRe 7])) in
+  sched_lock_ok [] s = true /\ disciplined [] (proj 1 s) = true /\ disciplined [] (proj 2 s) = true /\ run_locks [] s = [].
+Proof.
+  split.
+  - intros a [<- | [<- | []]]; eexists; split; eauto.
+  - repeat split; reflexivity.
+Qed.
